@@ -230,7 +230,7 @@ func init() {
 			return []string{r}
 		})
 	}
-	for _, n := range []string{"bytes.NewBuffer", "bytes.NewBufferString", "bufio.NewWriter", "bufio.NewReader", "bufio.NewScanner", "strings.NewReader", "bytes.NewReader", "regexp.MustCompile"} {
+	for _, n := range []string{"bytes.NewBuffer", "github.com/goccy/go-json.NewDecoder", "github.com/goccy/go-json.NewEncoder", "bytes.NewBufferString", "bufio.NewWriter", "bufio.NewReader", "bufio.NewScanner", "strings.NewReader", "bytes.NewReader", "regexp.MustCompile"} {
 		nonNil(n)
 	}
 
